@@ -17,6 +17,7 @@ import (
 	"net/http"
 	"strings"
 
+	"github.com/saucelabs/forwarder/header"
 	"github.com/saucelabs/forwarder/internal/martian"
 	"github.com/saucelabs/forwarder/internal/vfrt"
 )
@@ -296,4 +297,54 @@ func vfH_C02_stream() {
 		got, _ := io.ReadAll(res.Body)
 		vfrt.Assert(bytes.Equal(got, append(append([]byte{}, e1...), e2...)), "stream/body-bytes")
 	}
+}
+
+//vf:assume C02-rules: configured response-header rules (-X-A, X-Rule: on, Empty;) applied to one response with a symbolic 2-byte value in X-A and X-B, a Set-Cookie pair and a 3-byte body; statuses 200 / 404 / 204; the rules must take effect and leave everything else as the origin sent it
+
+//vf:harness property=C02 nopanic reach=rules-applied steps=8000000
+func vfH_C02_rules() {
+	cfg := HTTPProxyConfig{}
+	cfg.Name = "fw"
+	cfg.ProxyLocalhost = AllowProxyLocalhost
+	r1, _ := header.ParseHeader("-X-A")
+	r2, _ := header.ParseHeader("X-Rule: on")
+	r3, _ := header.ParseHeader("Empty;")
+	cfg.ResponseModifiers = []martian.ResponseModifier{header.Headers{r1, r2, r3}}
+	hp := vfNewHTTPProxy(cfg)
+	rt := hp.transport.(*vfRoundTripper)
+	va, vb := vfrt.String("x-a", 2), vfrt.String("x-b", 2)
+	for _, v := range []string{va, vb} {
+		for j := 0; j < 2; j++ {
+			vfrt.Assume(v[j] > 0x20)
+			vfrt.Assume(v[j] < 0x7f)
+		}
+	}
+	body := vfrt.Bytes("body", 3)
+	code := []int{200, 404, 204}[vfrt.Choice("status", 3)]
+	rt.respond = func(req *http.Request, n int) (*http.Response, error) {
+		res := &http.Response{StatusCode: code, ProtoMajor: 1, ProtoMinor: 1, Request: req, ContentLength: 3,
+			Header: http.Header{"X-A": {va}, "X-B": {vb}, "Set-Cookie": {"k=v", "k2=v2"}, "Empty": {"full"}}, Body: io.NopCloser(bytes.NewReader(body))}
+		if code == 204 {
+			res.ContentLength, res.Body = 0, http.NoBody
+		}
+		return res, nil
+	}
+	conn := martian.NewVfConn([]byte("GET http://example.com/1 HTTP/1.1\r\nHost: example.com\r\n\r\n"))
+	martian.VfServeConn(hp.proxy, conn)
+	res, err := http.ReadResponse(bufio.NewReader(bytes.NewReader(conn.Out.Bytes())), &http.Request{Method: "GET"})
+	vfrt.Assert(err == nil && res.StatusCode == code, "rules/response-parses")
+	if err != nil {
+		return
+	}
+	vfrt.Reach("rules-applied")
+	got, _ := io.ReadAll(res.Body)
+	if code != 204 {
+		vfrt.Assert(bytes.Equal(got, body), "rules/body-untouched")
+	}
+	vfrt.Assert(len(res.Header["X-A"]) == 0, "rules/remove-rule-applied")
+	vfrt.Assert(len(res.Header["X-Rule"]) == 1 && res.Header["X-Rule"][0] == "on", "rules/add-rule-applied")
+	vfrt.Assert(len(res.Header["Empty"]) == 1 && res.Header["Empty"][0] == "", "rules/empty-rule-applied")
+	vfrt.Assert(len(res.Header["X-B"]) == 1 && res.Header["X-B"][0] == vb, "rules/other-fields-untouched")
+	sc := res.Header["Set-Cookie"]
+	vfrt.Assert(len(sc) == 2 && sc[0] == "k=v" && sc[1] == "k2=v2", "rules/repeated-fields-untouched")
 }
